@@ -33,7 +33,7 @@ def run(ctx):
         if ok_make:
             pr = vlib.check_properties_file(ctx, os.path.join(vlib.COQ, "Props/C03.v"), cone, timeout=900)
     proof_ok = bool(pr and pr["ok"])
-    apcost = hc.libfunc_ap_cost(ctx, vlib.cone_files("Libfuncs")) if ok_make else None
+    apcost = hc.libfunc_ap_cost(ctx) if ok_make else None
 
     fault = hc.run_fault(ctx) if ok_build else None
 
